@@ -102,6 +102,7 @@ struct Filt
          case 'e': return hasV;
          case 'c': {const int c = (int) cc; switch(op) {case '>': return c > k; case '<': return c < k; case '=': return c == k; case '!': return c != k; case 'G': return c >= k; default: return c <= k;}}
          case 'n': return (nm == name);
+         case 't': return false;   // (needs the Message: see EvalMsg)
          case 'A': for (auto & f : kids) if (!f.Eval(what, hasV, v, cc, nm)) return false; return true;
          case 'O': for (auto & f : kids) if (f.Eval(what, hasV, v, cc, nm)) return true; return false;
          default:  return true;
@@ -113,7 +114,20 @@ struct Filt
       if (kind == '-') return true;
       if (m == NULL) return true;   // a node without any payload object is never subjected to filters (consistent throughout the server)
       int32 v = 0; const bool hasV = m->FindInt32("v", v).IsOK();
+      if (HasKind('t')) return EvalFull(*m, hasV, v, cc, nm);
       return Eval(m->what, hasV, v, cc, nm);
+   }
+   bool HasKind(char c) const {if (kind == c) return true; for (auto & f : kids) if (f.HasKind(c)) return true; return false;}
+   // full evaluation against the Message (string value #k of field "t" equals the literal; a missing value does not match)
+   bool EvalFull(const muscle::Message & m, bool hasV, int32_t v, uint32_t cc, const std::string & nm) const
+   {
+      switch(kind)
+      {
+         case 't': {const muscle::String * sp = NULL; return (m.FindString("t", (uint32) k, &sp).IsOK())&&(sp)&&(name == sp->Cstr());}
+         case 'A': for (auto & f : kids) if (!f.EvalFull(m, hasV, v, cc, nm)) return false; return true;
+         case 'O': for (auto & f : kids) if (f.EvalFull(m, hasV, v, cc, nm)) return true; return false;
+         default:  return Eval(m.what, hasV, v, cc, nm);
+      }
    }
    std::string Str() const
    {
@@ -124,6 +138,7 @@ struct Filt
          case 'e': return "e";
          case 'c': return std::string("c") + op + I(k);
          case 'n': return "n" + name + ";";
+         case 't': return "t" + I(k) + name + ";";
          case 'A': case 'O': {std::string s(1, kind); s += "("; for (size_t i=0; i<kids.size(); i++) {if (i) s += ","; s += kids[i].Str();} return s + ")";}
          default:  return "-";
       }
@@ -151,6 +166,7 @@ struct Filt
          size_t e = pos; while((e < s.size())&&(isdigit((unsigned char) s[e]))) e++;
          f.k = atoi(s.substr(pos, e-pos).c_str()); pos = e;
       }
+      else if (c == 't') {f.kind = 't'; pos++; f.k = ((pos < s.size())&&(isdigit((unsigned char) s[pos]))) ? (s[pos++]-'0') : 0; size_t e = s.find(';', pos); if (e == std::string::npos) e = s.size(); f.name = s.substr(pos, e-pos); pos = (e < s.size()) ? (e+1) : e;}
       else if (c == 'n') {f.kind = 'n'; pos++; size_t e = s.find(';', pos); if (e == std::string::npos) e = s.size(); f.name = s.substr(pos, e-pos); pos = (e < s.size()) ? (e+1) : e;}
       else if ((c == 'A')||(c == 'O'))
       {
@@ -184,6 +200,7 @@ struct Filt
                         case '!': o = ChildCountQueryFilter::OP_NOT_EQUAL_TO; break; case 'G': o = ChildCountQueryFilter::OP_GREATER_THAN_OR_EQUAL_TO; break; default: o = ChildCountQueryFilter::OP_LESS_THAN_OR_EQUAL_TO; break;}
             return ConstQueryFilterRef(new ChildCountQueryFilter(o, k));
          }
+         case 't': return ConstQueryFilterRef(new StringQueryFilter("t", StringQueryFilter::OP_EQUAL_TO, String(name.c_str()), (uint32) k));
          case 'n': return ConstQueryFilterRef(new NodeNameQueryFilter(NodeNameQueryFilter::OP_EQUAL_TO, String(name.c_str())));
          case 'A': {AndQueryFilter * a = new AndQueryFilter; for (auto & f : kids) (void) a->GetChildren().AddTail(f.ToMuscle()); return ConstQueryFilterRef(a);}
          case 'O': {OrQueryFilter * a = new OrQueryFilter; for (auto & f : kids) (void) a->GetChildren().AddTail(f.ToMuscle()); return ConstQueryFilterRef(a);}
